@@ -193,7 +193,20 @@ static void inform_hunks_failed(std::ostream& out, const char* reason, const std
     out << ' ' << reason;
 }
 
-static void refuse_to_patch(std::ostream& out, std::ios_base::openmode mode, const std::string& output_file, const Patch& patch, const Options& options)
+// The rejects of a file which already got some from an earlier patch of the input (or those of every file
+// if they all are to go to the one file given) are added to what is there, only the first ones replace it.
+class RejectFiles {
+public:
+    std::ios_base::openmode open_mode_for(const std::string& reject_file)
+    {
+        return m_written_reject_files.emplace(reject_file).second ? std::ios::trunc : std::ios::app;
+    }
+
+private:
+    std::unordered_set<std::string> m_written_reject_files;
+};
+
+static void refuse_to_patch(std::ostream& out, std::ios_base::openmode mode, const std::string& output_file, const Patch& patch, const Options& options, RejectFiles& reject_files)
 {
     out << " refusing to patch\n";
     inform_hunks_failed(out, "ignored", patch.hunks, patch.hunks.size());
@@ -202,7 +215,7 @@ static void refuse_to_patch(std::ostream& out, std::ios_base::openmode mode, con
         const auto reject_file = reject_path(options, output_file);
         out << " -- saving rejects to file " << reject_file;
         ensure_parent_directories(reject_file);
-        File file(reject_file, mode | std::ios::trunc);
+        File file(reject_file, mode | reject_files.open_mode_for(reject_file));
 
         RejectWriter reject_writer(patch, file, options.reject_format);
         for (const auto& hunk : patch.hunks)
@@ -534,6 +547,7 @@ int process_patch(const Options& options)
     bool first_patch = true;
 
     DeferredWriter deferred_writer;
+    RejectFiles reject_files;
 
     Parser parser(patch_file.file());
 
@@ -601,7 +615,7 @@ int process_patch(const Options& options)
             if (should_parse_body)
                 parser.parse_patch_body(patch);
             out << "File " << file_to_patch << " is not a regular file --";
-            refuse_to_patch(out, mode, output_file, patch, options);
+            refuse_to_patch(out, mode, output_file, patch, options, reject_files);
             had_failure = true;
             continue;
         }
@@ -610,7 +624,7 @@ int process_patch(const Options& options)
         if (permission_result.had_failure) {
             if (should_parse_body)
                 parser.parse_patch_body(patch);
-            refuse_to_patch(out, mode, output_file, patch, options);
+            refuse_to_patch(out, mode, output_file, patch, options, reject_files);
             had_failure = true;
             continue;
         }
@@ -669,7 +683,7 @@ int process_patch(const Options& options)
 
                 // The file being patched may be on its way to a directory which does not exist yet.
                 ensure_parent_directories(reject_file);
-                File file(reject_file, mode | std::ios::trunc);
+                File file(reject_file, mode | reject_files.open_mode_for(reject_file));
                 tmp_reject_file.write_entire_contents_to(file);
             }
             out << '\n';
